@@ -464,14 +464,61 @@ def evaluate (ops : List Op) (fns : List Bytes) (resolve : Option (Bytes → Byt
       | .ok none => .err
       | .ok (some v) => .ok v
 
-/-- an `Evaluator` value is its two stacks (Resolver, Operators and Functions are the parameters); `Evaluate` on a
-    used evaluator: `parse` starts with `e.operandStack = nil; e.operatorStack = nil` -/
-def evaluateReuse (ops : List Op) (fns : List Bytes) (resolve : Option (Bytes → Bytes)) (_old : St) (s : Bytes) :
+/-! ### the state of an `Evaluator` between calls
+
+    An `Evaluator` value is its two stacks (Resolver, Operators and Functions are the parameters).  `Evaluate` leaves
+    them as they are when it returns: after a successful call the operand stack still holds the tree, after a
+    rejected expression whatever had been pushed when the error was found.  The next `parse` starts with
+    `e.operandStack = nil; e.operatorStack = nil`. -/
+
+/-- the first two statements of `parse` -/
+def St.reset (st : St) : St := { st with opds := [], ops := [] }
+
+/-- `parse` on an evaluator that still holds `old` from its previous call -/
+def parseOn (ops : List Op) (fns : List Bytes) (old : St) (s : Bytes) : R St :=
+  parseLoop ops fns [] s old.reset false none
+
+/-- the same WITHOUT the two reset statements — not what the code does; `C09.reset_is_needed` shows a leftover
+    operand changing a later result -/
+def parseOnNoReset (ops : List Op) (fns : List Bytes) (old : St) (s : Bytes) : R St :=
+  parseLoop ops fns [] s old false none
+
+/-- what the model assumes the stacks hold after a REJECTED expression: `R.err` carries no stacks, so the model does
+    not track which operands/operators had been pushed; it continues from this non-empty state (the theorems hold for
+    EVERY old state) -/
+def St.afterError (s : Bytes) : St :=
+  ⟨[.operand none s, .operand none s], [⟨⟨MINUS, 50, true, true⟩, none⟩]⟩
+
+/-- `Evaluate` on a used evaluator: the stacks left behind, and the result.  `prs` is `parseOn` (or, for the
+    counter-example, `parseOnNoReset`); nested `EvaluateNew` calls are on fresh evaluators (`evaluate … depth`) -/
+def evaluateWith (prs : St → Bytes → R St) (ops : List Op) (fns : List Bytes) (resolve : Option (Bytes → Bytes))
+    (depth : Nat) (old : St) (s : Bytes) : St × R Bytes :=
+  match prs old s with
+  | .err => (St.afterError s, .err)
+  | .panic => (St.afterError s, .panic)
+  | .ok st =>
+    match finish (st.ops.length + 1) st with
+    | .err => (st, .err)
+    | .panic => (st, .panic)
+    | .ok st' =>
+      (st', match st'.opds.head? with
+        | none => .ok []
+        | some top =>
+          match evalNode (evaluate ops fns resolve depth) (replaceVariables resolve) top with
+          | .err => .err
+          | .panic => .panic
+          | .ok none => .err
+          | .ok (some v) => .ok v)
+
+/-- `Evaluate` on the evaluator the driver keeps from line to line -/
+def evaluateReuse (ops : List Op) (fns : List Bytes) (resolve : Option (Bytes → Bytes)) (old : St) (s : Bytes) :
     St × R Bytes :=
-  let st' := match parse ops fns s with
-    | .ok st => (match finish (st.ops.length + 1) st with | .ok st' => st' | _ => st)
-    | _ => {}
-  (st', evaluate ops fns resolve (s.length + 1) s)
+  evaluateWith (parseOn ops fns) ops fns resolve s.length old s
+
+/-- the variant without the reset -/
+def evaluateNoReset (ops : List Op) (fns : List Bytes) (resolve : Option (Bytes → Bytes)) (old : St) (s : Bytes) :
+    St × R Bytes :=
+  evaluateWith (parseOnNoReset ops fns) ops fns resolve s.length old s
 
 /-- the tree with the variables of operands and argument texts substituted (what the value pass walks) -/
 def substNode (rv : Bytes → R Bytes) : Node → R Node
